@@ -139,6 +139,23 @@ def stream(draw, max_len=40):
             k = it["spec"]["kind"]
             if (k.startswith("def") or k.startswith("set")) and k.endswith("Vector") and draw(st.integers(0, 3)):
                 it["spec"]["attrs"]["timestamp"] = draw(st.sampled_from(pool))
+    # a camera streaming frames of one size: consecutive setBLOBVector messages that agree in everything (time stamp of
+    # one-second resolution, state, names, formats, sizes) except the payload
+    import base64
+
+    blob_sets = [i for i, it in enumerate(items) if it["spec"]["kind"] == "setBLOBVector" and any(c.get("text") for c in it["spec"]["children"])]
+    for src, gap in draw(st.lists(st.tuples(st.integers(0, 1000), st.integers(0, 2)), max_size=2)) if blob_sets else []:
+        i = blob_sets[src % len(blob_sets)]
+        twin = copy.deepcopy(items[i])
+        for c in twin["spec"]["children"]:
+            if c.get("text"):
+                try:
+                    raw = base64.b64decode(c["text"], validate=True)
+                except Exception:  # noqa
+                    continue
+                c["text"] = base64.b64encode(bytes(b ^ 0x5A for b in raw)).decode()
+        items.insert(min(len(items), i + 1 + gap), twin)
+        blob_sets = [k + 1 if k > i else k for k in blob_sets]
     return items
 
 
